@@ -259,10 +259,15 @@ class Oracle:
 
     def __init__(self, E, idxw):
         self.E = E
-        self.idxw = idxw
-        refsem.INDEX_W = idxw  # refsem reads this global at call time; one index width per worker process
+        self.set_idxw(idxw)
         self.machine = refsem.Machine(E.ModuleOp([]))
         self.noncanon = {}  # (width, python value) -> tag of the interpreter op that produced this non-canonical int
+
+    def set_idxw(self, idxw):
+        """Index width of the NEXT evaluations (refsem reads its global at call time). Workers switch back and forth
+        between 32 and 64 so that nothing may depend on the first Interpreter created in the process."""
+        self.idxw = idxw
+        refsem.INDEX_W = idxw
 
     def note_results(self, op, inputs, got):
         """Remember in-range results that are not signed-canonical (x != to_signed(x)): legal by the property
@@ -458,12 +463,18 @@ class OpRunner:
     def __init__(self, E, R, idxw):
         self.E, self.R = E, R
         self.O = Oracle(E, idxw)
-        self.interp = E.Interpreter(E.ModuleOp([]), index_bitwidth=idxw)
-        self.interp.register_implementations(E.ArithFunctions())
-        self.idxw = idxw
+        self.use(idxw)
         self.unsupported = set()
         self.unsup_ids = set()
         self.keep = []  # strong refs to ops
+
+    def use(self, idxw):
+        """Switch to a FRESH Interpreter of the given index width (and the oracle with it)."""
+        self.idxw = idxw
+        self.O.set_idxw(idxw)
+        self.interp = self.E.Interpreter(self.E.ModuleOp([]), index_bitwidth=idxw)
+        self.interp.register_implementations(self.E.ArithFunctions())
+        self.R.inc(f"interpreters_created_index{idxw}")
 
     def case(self, label, op, inputs, cell, replay):
         """One evaluation. Returns False when the op has no interpretation function (caller may stop)."""
@@ -531,40 +542,58 @@ def build_int_ops(E, tspec, t):
     return src, out
 
 
+def _phases(job, tspec_is_index):
+    """[(index width, which half of the work)]: both index widths are interleaved inside ONE process. For index-typed
+    work the middle phase runs everything under the second width, the outer phases split the work under the first."""
+    o = job.get("order") or [job.get("idxw", 64), 96 - job.get("idxw", 64)]
+    if tspec_is_index:
+        return [(o[0], "A"), (o[1], "all"), (o[0], "B")]
+    return [(o[0], "A"), (o[1], "B")]
+
+
+def _sel(seq, half):
+    h = (len(seq) + 1) // 2
+    return seq if half == "all" else seq[:h] if half == "A" else seq[h:]
+
+
 def work_int(E, R, job):
-    tspec, idxw, mode = job["tspec"], job.get("idxw", 64), job["mode"]
-    rng = random.Random(job["seed"])
+    tspec, mode = job["tspec"], job["mode"]
     t = mk_type(E, tspec)
-    w = idxw if tspec == "index" else int(tspec[1:])
-    run = OpRunner(E, R, idxw)
+    run = OpRunner(E, R, (job.get("order") or [job.get("idxw", 64)])[0])
     src, ops = build_int_ops(E, tspec, t)
     run.keep.append(src)
-    vals = int_values(w, mode, rng, 0)
-    pairs = list(itertools.product(vals, repeat=2))
-    if mode != "exh":
-        pairs += [(rand_int(rng, w), rand_int(rng, w)) for _ in range(job["nrand"])]
-        # shift-amount / small-divisor rows (the second operand in [0, w]) with random first operand
-        pairs += [(rand_int(rng, w), S(rng.randint(0, w), w)) for _ in range(job["nrand"] // 3)]
-    part, nparts = job.get("part", [0, 1])
-    pairs = pairs[part::nparts]
-    tag = tspec + (f"@{idxw}" if tspec == "index" else "")
     want_ops = job.get("ops")
-    for label, op, kind, desc in ops:
-        if want_ops and desc["name"] not in want_ops:
-            continue
-        for (x, y) in pairs:
-            rows = [(x, y)] if kind == "ab" else [(-1, x, y), (0, x, y)]
-            stop = False
-            for row in rows:
-                cell = (label, tag) + tuple(sign_class(v) for v in row)
-                rj = dict(desc, kind="op1", tspec=tspec, idxw=idxw, operands=list(row))
-                if not run.case(f"{label}:{tag}", op, row, cell, rj):
-                    stop = True
+    npairs = 0
+    for idxw, half in _phases(job, tspec == "index"):
+        run.use(idxw)
+        rng = random.Random(job["seed"] * 7 + idxw)
+        w = idxw if tspec == "index" else int(tspec[1:])
+        vals = int_values(w, mode, rng, 0)
+        pairs = list(itertools.product(vals, repeat=2))
+        if mode != "exh":
+            pairs += [(rand_int(rng, w), rand_int(rng, w)) for _ in range(job["nrand"])]
+            # shift-amount / small-divisor rows (the second operand in [0, w]) with random first operand
+            pairs += [(rand_int(rng, w), S(rng.randint(0, w), w)) for _ in range(job["nrand"] // 3)]
+        part, nparts = job.get("part", [0, 1])
+        pairs = pairs[part::nparts]
+        npairs = len(pairs)
+        tag = tspec + (f"@{idxw}" if tspec == "index" else "")
+        for label, op, kind, desc in _sel(ops, half):
+            if want_ops and desc["name"] not in want_ops:
+                continue
+            for (x, y) in pairs:
+                rows = [(x, y)] if kind == "ab" else [(-1, x, y), (0, x, y)]
+                stop = False
+                for row in rows:
+                    cell = (label, tag) + tuple(sign_class(v) for v in row)
+                    rj = dict(desc, kind="op1", tspec=tspec, idxw=idxw, operands=list(row))
+                    if not run.case(f"{label}:{tag}", op, row, cell, rj):
+                        stop = True
+                        break
+                if stop:
                     break
-            if stop:
-                break
-    R.res["samples"].append({"op_level": f"{len(ops)} int ops on {tag}", "mode": mode, "operand_pairs": len(pairs),
-                             "first_pairs": [list(p) for p in pairs[:3]]})
+    R.res["samples"].append({"op_level": f"{len(ops)} int ops on {tspec}", "mode": mode, "operand_pairs": npairs,
+                             "index_width_phases": [list(x) for x in _phases(job, tspec == "index")]})
 
 
 def float_grid(spec, rng, nrand):
@@ -612,7 +641,8 @@ def work_float(E, R, job):
     pairs = list(itertools.product(grid, repeat=2))
     part, nparts = job.get("part", [0, 1])
     pairs = pairs[part::nparts]
-    for label, op, kind, desc in ops:
+    for k, (label, op, kind, desc) in enumerate(ops):
+        run.use((64, 32)[k % 2])
         for (x, y) in (pairs if kind != "a" else [(g, None) for g in grid]):
             rows = {"ab": [(x, y)], "a": [(x,)], "cab": [(-1, x, y), (0, x, y)]}[kind]
             stop = False
@@ -633,11 +663,19 @@ INT_CAST_SPECS = ["i1", "i2", "i3", "i4", "i8", "i16", "i32", "i64"]
 
 def work_cast(E, R, job):
     """casts (ext/trunc/index_cast/int<->float/extf/truncf/bitcast) and constants."""
-    idxw = job.get("idxw", 64)
+    order = job.get("order") or [job.get("idxw", 64), 96 - job.get("idxw", 64)]
     rng = random.Random(job["seed"])
-    run = OpRunner(E, R, idxw)
+    run = OpRunner(E, R, order[0])
     A = E.arith
     nrand = job["nrand"]
+    for idxw, half in [(order[0], "A"), (order[1], "all"), (order[0], "B")]:
+        run.use(idxw)
+        _cast_phase(E, R, run, rng, job["which"], idxw, half, nrand)
+    R.res["samples"].append({"op_level": f"cast/constant group {job['which']}", "index_width_order": order})
+
+
+def _cast_phase(E, R, run, rng, which, idxw, half, nrand):
+    A = E.arith
 
     def ivals(spec):
         w = idxw if spec == "index" else int(spec[1:])
@@ -657,21 +695,20 @@ def work_cast(E, R, job):
             if not run.case(f"{label}[{tag}]", op, (v,), cell, rj):
                 break
 
-    which = job["which"]
     if which == "intcast":
-        for s_, d_ in itertools.permutations(INT_CAST_SPECS, 2):
+        for s_, d_ in (itertools.permutations(INT_CAST_SPECS, 2) if half == "all" else ()):
             ws, wd = int(s_[1:]), int(d_[1:])
             if ws < wd:
                 go("arith.extsi", A.ExtSIOp, s_, d_, ivals(s_), {"name": "arith.extsi"})
                 go("arith.extui", A.ExtUIOp, s_, d_, ivals(s_), {"name": "arith.extui"})
             else:
                 go("arith.trunci", A.TruncIOp, s_, d_, ivals(s_), {"name": "arith.trunci"})
-        for s_ in ["i1", "i8", "i16", "i32", "i64"]:
+        for s_ in _sel(["i1", "i8", "i16", "i32", "i64"], half):
             go("arith.index_cast", A.IndexCastOp, s_, "index", ivals(s_), {"name": "arith.index_cast"})
             go("arith.index_cast", A.IndexCastOp, "index", s_, ivals("index"), {"name": "arith.index_cast"})
             go("arith.bitcast", A.BitcastOp, s_, s_, ivals(s_)[:8], {"name": "arith.bitcast"})
     elif which == "fpcast":
-        for fs in FLOAT_SPECS:
+        for fs in _sel(list(FLOAT_SPECS), half):
             grid = float_grid(fs, rng, nrand)
             for is_ in ["i1", "i8", "i16", "i32", "i64"]:
                 go("arith.fptosi", A.FPToSIOp, fs, is_, grid, {"name": "arith.fptosi"})
@@ -687,7 +724,7 @@ def work_cast(E, R, job):
             go("arith.bitcast", A.BitcastOp, ib, fs, ivals(ib), {"name": "arith.bitcast"})
     else:  # constants: the attribute is built from BOTH spellings of a bit pattern (signed and unsigned literal)
         b = E.builtin
-        for spec in ["i1", "i2", "i3", "i4", "i8", "i16", "i32", "i64", "index"]:
+        for spec in _sel(["index", "i1", "i2", "i3", "i4", "i8", "i16", "i32", "index", "i64"], half):
             t = mk_type(E, spec)
             w = idxw if spec == "index" else int(spec[1:])
             for v in ivals(spec):
@@ -703,27 +740,34 @@ def work_cast(E, R, job):
                             "unsigned-spelling" if lit != v else "signed-spelling")
                     run.case(f"arith.constant:{spec}", op, (), cell,
                              {"kind": "op1", "name": "arith.constant", "tspec": spec, "idxw": idxw, "operands": [], "lit": lit})
-        for fs in FLOAT_SPECS:
+        for fs in (FLOAT_SPECS if half == "all" else ()):
             t = mk_type(E, fs)
             for v in float_grid(fs, rng, nrand):
                 op = A.ConstantOp(b.FloatAttr(v, t))
                 run.keep.append(op)
                 run.case(f"arith.constant:{fs}", op, (), ("arith.constant", fs, sign_class(v)),
                          {"kind": "op1", "name": "arith.constant", "tspec": fs, "idxw": idxw, "operands": [], "lit": jval(v)})
-    R.res["samples"].append({"op_level": f"cast/constant group {which}", "index_width": idxw})
 
 
 def work_chain(E, R, job):
     """Two-op chains: every in-range but NOT signed-canonical value that one of the interpreter's own ops returned
     (python bools from cmpi, unwrapped shifts, ...) is fed to every consumer op in both operand positions."""
-    tspec, idxw = job["tspec"], job.get("idxw", 64)
-    rng = random.Random(job["seed"])
+    tspec = job["tspec"]
+    order = job.get("order") or [job.get("idxw", 64), 96 - job.get("idxw", 64)]
+    run = OpRunner(E, R, order[0])
+    for idxw in (order if tspec == "index" else order[:1]):
+        run.use(idxw)
+        _chain_one(E, R, run, job, idxw)
+
+
+def _chain_one(E, R, run, job, idxw):
+    tspec = job["tspec"]
+    rng = random.Random(job["seed"] * 5 + idxw)
     t = mk_type(E, tspec)
     w = idxw if tspec == "index" else int(tspec[1:])
-    run = OpRunner(E, R, idxw)
     O = run.O
     tag = tspec + (f"@{idxw}" if tspec == "index" else "")
-    rj = {"kind": "chain", "tspec": tspec, "idxw": idxw, "seed": job["seed"], "nrand": job.get("nrand", 0)}
+    rj = {k: v for k, v in job.items()}
     vals = int_values(w, "exh" if w <= 4 else "bnd", rng, 0)
     if w > 4:
         vals = sorted(set(vals[:: max(1, len(vals) // 14)] + [S(x, w) for x in (0, 1, -1, 1 << (w - 2), (1 << (w - 1)) - 1, -(1 << (w - 1)))]))
@@ -766,7 +810,9 @@ def work_chain(E, R, job):
         found = found[:: len(found) // 120 + 1]
     # the representation the producer really returned (bool for cmpi)
     reps = [True if (w == 1 and v == 1 and O.noncanon[(w, v)] == "arith.cmpi") else v for v in found]
-    # ---- consumers
+    # ---- consumers (for width-independent types on a fresh interpreter of the OTHER index width)
+    if tspec != "index":
+        run.use(96 - idxw)
     so = E.test.TestOp(result_types=[t])
     run.keep.append(so)
     casts_out = [(f"arith.index_cast[{tag}->{o_}]", E.arith.IndexCastOp(so.results[0], mk_type(E, o_)))
